@@ -447,6 +447,13 @@ read_chunk()
 {
     // TODO: enforce chunk alignment!
 
+    if (reached_eof_chunk) {
+        // The EOF chunk must be the very last chunk of the file
+        state_ = ReadState::ErrorInvalidFile;
+        error_msg_ = "Data after EOF chunk";
+        return;
+    }
+
     ChunkHeader header;
     auto decoder = stream_.make_decoder(ovmb_size<ChunkHeader>);
     read(decoder, header);
